@@ -4,7 +4,7 @@
 EXTENDS FsLock, TLC, Json, Sequences
 CONSTANT Depth
 VARIABLE hist
-SInit == /\ \E n \in 2..3, s \in BOOLEAN, m \in BOOLEAN : InitWith([n |-> n, stale |-> s, mortal |-> m])
+SInit == /\ \E n \in 2..3, s \in BOOLEAN, m \in BOOLEAN : InitWith([n |-> n, stale |-> s, mortal |-> m, parent |-> FALSE])
          /\ hist = <<>>
 SNext == Next /\ hist' = Append(hist, last')
 SSpec == SInit /\ [][SNext]_<<vars, hist>>
